@@ -113,6 +113,20 @@ pub mod hc {
         fn deref_mut(&mut self) -> &mut [T] { &mut self.buf[..self.n] }
     }
 
+    /// stand-in for crate::generator::Mode
+    pub enum Mode {
+        Gapless,
+        WithHoles { value_ranges: Vec<(i64, i64)> },
+    }
+
+    /// everything from `let value_ranges = {` to the end of `let mode = ...;` in
+    /// src/parser/mod.rs, unmodified: the run table AND the gapless / with-holes decision
+    #[allow(unused_variables)]
+    pub fn classify(values: &Vec<(i64, ())>, min_key: i64, max_key: i64, num_values: usize) -> Mode {
+        @MODEBLOCK@
+        mode
+    }
+
     /// the block `let value_ranges = {{ ... }};` cut out of src/parser/mod.rs, unmodified
     #[allow(unused_variables)]
     pub fn run_table(values: &Vec<(i64, ())>, min_key: i64, max_key: i64, num_values: usize) -> Vec<(i64, i64)> {
@@ -140,7 +154,17 @@ pub mod hc {
         }
         let min_key = values.buf[0].0;
         let max_key = values.buf[m - 1].0;
-        let r = run_table(&values, min_key, max_key, m);
+        let consecutive = (max_key as i128) - (min_key as i128) + 1 == m as i128;
+        let r = match classify(&values, min_key, max_key, m) {
+            Mode::Gapless => {
+                assert!(consecutive, "classified as gapless although the discriminants are not consecutive");
+                run_table(&values, min_key, max_key, m)
+            }
+            Mode::WithHoles { value_ranges } => {
+                assert!(!consecutive, "classified as with-holes although the discriminants are consecutive");
+                value_ranges
+            }
+        };
         assert!(r.n >= 1 && r.n <= m, "number of runs");
         assert!(r.buf[0].0 == min_key, "first run starts at the minimum");
         assert!(r.buf[r.n - 1].1 == max_key, "last run ends at the maximum");
@@ -202,6 +226,31 @@ def extract_run_block():
     return src[i:end + 1]
 
 
+def extract_mode_block():
+    """`let value_ranges = { ... };` together with everything up to the end of `let mode = ...;`"""
+    try:
+        src = open(os.path.join(REPO, "src/parser/mod.rs")).read()
+    except OSError:
+        return None
+    i = src.find("let value_ranges = {")
+    j = src.find("let mode", i)
+    if i < 0 or j < 0:
+        return None
+    depth = 0
+    k = j
+    while k < len(src):
+        if src[k] == "{":
+            depth += 1
+        elif src[k] == "}":
+            depth -= 1
+        elif src[k] == ";" and depth == 0:
+            break
+        k += 1
+    if k >= len(src):
+        return None
+    return src[i:k + 1]
+
+
 def engine_c(rep, M, harness_timeout):
     """lemma: the run table computed by the real loop is a partition of the sorted values"""
     prop = rep.prop
@@ -211,7 +260,13 @@ def engine_c(rep, M, harness_timeout):
         return
     base = os.path.join(K.WORK, prop)
     crate_dir = os.path.join(base, "crate_c")
-    lib = C_TEMPLATE.replace("@BLOCK@", block.replace("\n", "\n        ")).replace("@M@", str(M)).replace("@UNWIND@", str(M + 2))
+    modeblock = extract_mode_block()
+    if modeblock is None:
+        # decision statement not found: keep the run-table lemma, classify == "one run"
+        modeblock = block + "\n        let mode = if value_ranges.len() == 1 { Mode::Gapless } else { Mode::WithHoles { value_ranges } };"
+        rep.skipped.append({"module": "engine_c", "what": "`let mode = ...;` not found after the run-splitting block: gapless/with-holes decision not covered"})
+    lib = (C_TEMPLATE.replace("@BLOCK@", block.replace("\n", "\n        ")).replace("@MODEBLOCK@", modeblock.replace("\n", "\n        "))
+           .replace("@M@", str(M)).replace("@UNWIND@", str(M + 2)))
     empty = RawModule("empty", "// (Engine C: the harness lives in lib.rs)\n")
     E.write_crate(crate_dir, "vt_%s_c" % prop.lower(), [empty], repo=REPO, extra_lib=lib, deps="")
     ok, errors, dt = K.native_check(crate_dir, log=os.path.join(base, "prepass_c.log"))
